@@ -524,6 +524,19 @@ func (c *cmafIngester) sendMediaSegments(ctx context.Context, nextSegNr, nowMS i
 		atoMS := int(c.cfg.getAvailabilityTimeOffsetS() * 1000)
 		for idx, rd := range c.repsData {
 			var se segEntries
+			if _, ok := c.asset.Reps[rd.repID]; !ok {
+				// Generated time subtitles have no VoD representation. They follow the reference track.
+				refSE := c.asset.generateTimelineEntries(c.asset.refRep.ID, wTimes, atoMS)
+				segTime := int(rep2SubsTime(refSE.lastTime(), int(refSE.mediaTimescale)))
+				segPart = replaceTimeOrNr(rd.mediaPattern, segTime)
+				segPath := fmt.Sprintf("%s/%d%s", rd.repID, segTime, rd.extension)
+				if c.streamsURLs {
+					segPath = fmt.Sprintf("Streams(%s%s)", rd.repID, rd.extension)
+				}
+				wg.Add(1)
+				go c.sendMediaSegment(ctx, &wg, segPath, segPart, rd.contentType, nextSegNr, nowMS, isLast)
+				continue
+			}
 			// The first representation is used as reference for generating timeline entries
 			if idx == 0 {
 				refSegEntries = c.asset.generateTimelineEntries(rd.repID, wTimes, atoMS)
